@@ -21,6 +21,15 @@ def _validate(trace):
     raise common.ToolError("TraceStore failed without a finding:\n" + r.out[-1500:])
 
 
+def _validate_epochs(trace):
+    r = common.tlc("engine", "TraceEpochs", cfg="TraceEpochs.cfg", workers=1, timeout=600, env_extra={"TRACE": trace}, xss="1g", xmx="4g")
+    m = re.search(r'<<\s*"VERDICT",\s*"([^"]*)",\s*(\d+),\s*(\d+)\s*>>', r.out)
+    if not m:
+        raise common.ToolError("TraceEpochs produced no verdict:\n" + r.out[-1500:])
+    what = None if m.group(1) == "ok" else f"{m.group(1)} (event {m.group(2)} of the recorded trace)"
+    return what, int(m.group(3))
+
+
 def run(tier, seed):
     t0 = time.time()
     common.cargo_build()
@@ -33,6 +42,7 @@ def run(tier, seed):
         [(300, 40, "mixed"), (300, 12, "mixed"), (700, 400, "bulk"), (2000, 1000, "bulk"), (500, 6, "mixed"), (1500, 300, "mixed")]
     nseeds = 3 if tier == "quick" else 15
     traces, events, samples, viol = 0, 0, [], 0
+    ep_states, ep_traces, ep_events, ep_admitted, ep_max_known, ep_samples = 0, 0, 0, 0, 0, []
     try:
         for (steps, maxn, profile) in plan:
             for k in range(nseeds):
@@ -53,18 +63,59 @@ def run(tier, seed):
                     viol = 1
                     path = common.write_replay(PROP, "trace_violation", {"property": PROP, "seed": s, "steps": steps, "maxn": maxn, "profile": profile, "what": what, "trace": trace})
                     raise common.Violation(PROP, what, path)
+        # ---- block admission by kind / number / claimed epoch / signing committee and the dynamic validator schedule (Epochs.tla)
+        for cfgname, must_fail in [("MC_Epochs_honest.cfg", None), ("MC_Epochs_byz.cfg", None), ("MC_Epochs_lag.cfg", "RightCommittee")]:
+            me = common.tlc("engine", "MC_Epochs", cfg=cfgname, workers=8, timeout=900, xmx="8g")
+            if must_fail:
+                if me.violated != must_fail:
+                    raise common.ToolError(f"{cfgname}: expected {must_fail} to be violated (the environment assumption would be vacuous), got {me.violated}")
+            elif not me.ok:
+                raise common.ToolError(f"Epochs.tla properties fail on the specification ({cfgname}):\n" + me.out[-1500:])
+            else:
+                ep_states += me.distinct
+        for (g, l) in [(3, 3), (0, 2), (2, 4), (5, 1)]:
+            for k in range(3 if tier == "quick" else 25):
+                s = seed * 100 + k
+                trace = os.path.join(d, f"ep_{g}_{l}_{s}.ndjson")
+                rep = os.path.join(d, f"ep_{g}_{l}_{s}.json")
+                steps = 260 if tier == "quick" else 800
+                rc, so, se = common.run_bin("epoch_drv", [trace, rep, s, steps, g, l], timeout=600)
+                if rc != 0 and not os.path.exists(rep):
+                    raise common.ToolError("epoch_drv failed: " + se[-800:])
+                r = common.load_report(rep)
+                common.handle_failures(PROP, r["failures"], "epoch_driver_failure")
+                what, n = _validate_epochs(trace)
+                ep_traces += 1
+                ep_events += n
+                ep_admitted += r["counters"].get("admitted", 0)
+                ep_max_known = max(ep_max_known, r["counters"].get("max_epochs_known", 0))
+                if len(ep_samples) < 2:
+                    ep_samples.append({"run": r["samples"][0], "counters": r["counters"]})
+                if what:
+                    viol = 1
+                    path = common.write_replay(PROP, "epoch_trace_violation", {"property": PROP, "kind": "epochs", "seed": s, "steps": steps, "G": g, "L": l, "what": what, "trace": trace})
+                    raise common.Violation(PROP, what, path)
+        if ep_max_known < 3:
+            raise common.ToolError("epoch_drv never reached three known epochs: pruning of the schedule was not exercised")
     finally:
         cov = {"states": m.distinct, "transitions": m.generated, "traces_validated_against_impl": traces, "samples": samples or [{}],
                "evaluations": events, "distinct_nontrivial": traces,
                "rule": "model: BFS of BlockStore.tla (3-4 block numbers, 2 valid + 1 invalid candidate block per number); code: one trace per (steps, "
                        "max number, seed); runs with max number 260+ cross the real CACHE_CAPACITY = 100; each quiescent observation is one TLC state",
-               "exhaustive": True}
+               "exhaustive": True,
+               "admission_and_epochs": {"model_states": ep_states, "traces": ep_traces, "events": ep_events, "blocks_admitted": ep_admitted, "max_epochs_known": ep_max_known,
+                                        "samples": ep_samples,
+                                        "rule": "Epochs.tla: BFS with honest+informed committees (RightCommittee, NumberingOK, NextKnown, PrunedOnlyFinished), with Byzantine "
+                                                "committees (AtMostThree, Contiguous, OnlyLastOpen) and, as a vacuity guard, with lagging honest committees (RightCommittee must "
+                                                "fail); code: a real EngineManager over an execution layer with a dynamic schedule (two one-member committees alternating every L "
+                                                "blocks), seeded offers of externally justified / certified blocks (number, claimed epoch, signing committee, corruptions), "
+                                                "schedule-loop ticks on a ManualClock and restarts, every step explained by TraceEpochs.tla"}}
         common.write_evidence(PROP, tier, seed, "model_checking", cov,
                               ["pre-genesis blocks with an external justification (verification = harness rule) keep the runs cheap; the certificate path of "
                                "queue_block is exercised by C01's block sync", "the side channel delivers the block this node already accepted for a number, if any",
                                "the peer-side guard in gossip/runner.rs (requested number) is above EngineManager and not covered here"],
                               time.time() - t0, viol)
-    log(f"[C08] ok: model {m.distinct} states; {traces} traces / {events} observations validated")
+    log(f"[C08] ok: model {m.distinct} states; {traces} traces / {events} observations validated; epochs: {ep_states} model states, {ep_traces} traces / {ep_events} events, {ep_admitted} blocks admitted")
     return 0
 
 
@@ -75,6 +126,13 @@ def replay(path, seed):
     d = common.outdir(PROP)
     trace = os.path.join(d, "replay.ndjson")
     rep = os.path.join(d, "replay.json")
+    if c.get("kind") == "epochs":
+        common.run_bin("epoch_drv", [trace, rep, c["seed"], c["steps"], c["G"], c["L"]])
+        what, n = _validate_epochs(trace)
+        if what:
+            raise common.Violation(PROP, what, path)
+        log("replay: no violation")
+        return 0
     common.run_bin("blockstore_drv", [trace, rep, c["seed"], c["steps"], c["maxn"], c.get("profile", "mixed")])
     what, n = _validate(trace)
     if what:
